@@ -88,28 +88,100 @@ func rtOf(typ string) *libRT {
 	return rtReal64
 }
 
-// a register or scratch scalar: fresh, or reused from an earlier computation over the
-// same number of variables (stale value, gradient and asymmetric Hessian garbage).
+// a register or scratch scalar: fresh, or reused from earlier computations over the same
+// number of variables (stale value, gradient and asymmetric Hessian garbage): polHists[pollute]
+// lists the derivative orders of the contents it held, each assigned over the previous one.
 func (rt *libRT) temp(n, pollute int, salt float64) ad.MagicScalar {
 	if pollute == 0 {
 		return rt.newMagic(0)
 	}
-	return rt.used(7.25+salt, n, pollute, salt)
+	h := polHists[pollute]
+	r := rt.used(7.25+salt, n, h.Orders[0], salt)
+	for k, o := range h.Orders[1:] {
+		src := rt.used(7.25+salt+float64(k+1), n, o, salt+float64(k+1))
+		if k == len(h.Orders)-2 && h.Route == "Add0" {
+			r.Add(src, ad.ConstFloat64(0))
+		} else {
+			r.Set(src)
+		}
+	}
+	return r
 }
 
-// used: a scalar holding value v that was the result of an order-`pollute` computation over n variables.
-func (rt *libRT) used(v float64, n, pollute int, salt float64) ad.MagicScalar {
+// constObj: a magic-typed scalar holding the constant v (an accumulator, a constant vector
+// element): a new object, or a reused one (see temp) whose value was set with SetFloat64,
+// which zeroes the derivatives and keeps order and number of variables.
+func (rt *libRT) constObj(v float64, n, pollute int) ad.MagicScalar {
+	if pollute == 0 {
+		return rt.newMagic(v)
+	}
+	r := rt.temp(n, pollute, 3.5)
+	r.SetFloat64(v)
+	return r
+}
+
+// used: a scalar holding value v that was the result of an order-`order` computation over n variables.
+func (rt *libRT) used(v float64, n, order int, salt float64) ad.MagicScalar {
 	r := rt.newMagic(v)
-	r.Alloc(n, pollute)
-	for i := 0; i < n; i++ {
+	r.Alloc(n, order)
+	for i := 0; i < n && order >= 1; i++ {
 		r.SetDerivative(i, -3.5-float64(i)-salt)
-		if pollute >= 2 {
+		if order >= 2 {
 			for k := 0; k < n; k++ {
 				r.SetHessian(i, k, 11.0+float64(3*i)-float64(5*k)+salt)
 			}
 		}
 	}
 	return r
+}
+
+// buildHist: the variable objects after the earlier differentiation round described by h.
+func (rt *libRT) buildHist(h *VarHist) []ad.MagicScalar {
+	n := len(h.X0)
+	op := findOp(h.Op, h.Par)
+	if op < 0 || n == 0 || (ops[op].Kind != Unary && ops[op].Kind != Binary) {
+		panic("buildHist: malformed variable history")
+	}
+	o := ops[op]
+	mv := make([]ad.MagicScalar, n)
+	for i := range mv {
+		mv[i] = rt.newMagic(h.X0[i])
+	}
+	if err := ad.Variables(h.Order, mv...); err != nil {
+		panic(err)
+	}
+	var T []ad.MagicScalar
+	if h.Other == "T" {
+		T = make([]ad.MagicScalar, n)
+		for i := range T {
+			T[i] = rt.newMagic(0)
+			T[i].Mul(mv[(i+1)%n], mv[(i+1)%n])
+		}
+	}
+	for i := range mv {
+		var other ad.ConstScalar
+		switch h.Other {
+		case "V":
+			other = mv[(i+1)%n]
+		case "K":
+			other = ad.ConstFloat64(constK)
+		case "P":
+			other = ad.NewFloat64(constP)
+		case "T":
+			other = T[i]
+		}
+		var a, b ad.ConstScalar = mv[i], other
+		switch {
+		case o.Kind == Unary:
+			b = nil
+		case h.Form == "ab":
+			b = mv[i]
+		case h.Form == "b":
+			a, b = other, mv[i]
+		}
+		rt.applyScalar(o, mv[i], a, b, n, 0)
+	}
+	return mv
 }
 
 // activate: the routes by which scalars become the variables of a differentiation.
@@ -147,10 +219,20 @@ func (rt *libRT) run(p *Program, cs *Case, ext []ad.ConstScalar) (out runOut) {
 	if vars == nil {
 		mv := make([]ad.MagicScalar, n)
 		vars = make([]ad.ConstScalar, n)
+		if cs.Hist != nil {
+			mv = rt.buildHist(cs.Hist)
+			for i := range mv {
+				if !sameBits(mv[i].GetFloat64(), cs.X[i]) {
+					panic(fmt.Sprintf("variable history %v from %v leaves x%d = %v, the case says %v", cs.Hist, cs.Hist.X0, i, mv[i].GetFloat64(), cs.X[i]))
+				}
+			}
+		}
 		for i := 0; i < n; i++ {
-			if cs.Stale > 0 {
+			switch {
+			case cs.Hist != nil:
+			case cs.Stale > 0:
 				mv[i] = rt.used(cs.X[i], n, cs.Stale, 0.25+float64(i))
-			} else {
+			default:
 				mv[i] = rt.newMagic(cs.X[i])
 			}
 			vars[i] = mv[i]
@@ -167,6 +249,13 @@ func (rt *libRT) run(p *Program, cs *Case, ext []ad.ConstScalar) (out runOut) {
 			out.panicMsg = fmt.Sprint(r)
 		}
 	}()
+	// constant-valued magic scalars are reused objects only in depth-1 programs: a constant register
+	// computed from such objects in a deeper program is a variable by the library's own definition
+	// (order >= 1), and Pow with that register as exponent takes the x^y branch (log(x) * 0 at x <= 0)
+	polC := cs.Pollute
+	if len(p.Ins) > 1 {
+		polC = 0
+	}
 	get := func(o Operand) ad.ConstScalar {
 		switch o.K {
 		case 'V':
@@ -178,7 +267,7 @@ func (rt *libRT) run(p *Program, cs *Case, ext []ad.ConstScalar) (out runOut) {
 		case 'P':
 			return ad.NewFloat64(o.V)
 		case 'C':
-			return rt.newMagic(o.V)
+			return rt.constObj(o.V, n, polC)
 		}
 		panic("bad operand kind")
 	}
@@ -191,7 +280,7 @@ func (rt *libRT) run(p *Program, cs *Case, ext []ad.ConstScalar) (out runOut) {
 			case 'R':
 				e[i] = out.regs[o.I]
 			default:
-				e[i] = rt.newMagic(o.V)
+				e[i] = rt.constObj(o.V, n, polC)
 			}
 		}
 		return e
@@ -209,12 +298,27 @@ func (rt *libRT) run(p *Program, cs *Case, ext []ad.ConstScalar) (out runOut) {
 		var a, b ad.ConstScalar
 		switch o.Kind {
 		case Unary:
-			a = get(in.A)
+			if in.A.K == 'C' {
+				// one operand: the receiver takes order and number of variables from it and nothing is
+				// re-allocated when it is the operand itself; on a reused object of order >= 1 the
+				// operation would only form f'(c) * 0
+				a = rt.newMagic(in.A.V)
+			} else {
+				a = get(in.A)
+			}
 		case Binary:
 			a = get(in.A)
-			if alias == "ab" {
+			switch {
+			case alias == "ab" && o.Name == "Pow" && in.A.K == 'C':
+				a = rt.newMagic(in.A.V) // base, exponent and destination one object: see below
 				b = a
-			} else {
+			case alias == "ab":
+				b = a
+			case o.Name == "Pow" && in.B.K == 'C':
+				// Pow decides between x^const and x^y by the exponent's order: a constant exponent
+				// is a constant by the library's own definition only in a scalar of order 0
+				b = rt.newMagic(in.B.V)
+			default:
 				b = get(in.B)
 			}
 		}
@@ -235,84 +339,8 @@ func (rt *libRT) run(p *Program, cs *Case, ext []ad.ConstScalar) (out runOut) {
 		}
 		var d ad.Scalar = dst
 		switch o.Kind {
-		case Unary:
-			switch o.Name {
-			case "Neg":
-				d.Neg(a)
-			case "Abs":
-				d.Abs(a)
-			case "Exp":
-				d.Exp(a)
-			case "Log":
-				d.Log(a)
-			case "Sqrt":
-				d.Sqrt(a)
-			case "PowK":
-				d.Pow(a, ad.ConstFloat64(o.Par))
-			case "Log1p":
-				d.Log1p(a)
-			case "Sin":
-				d.Sin(a)
-			case "Cos":
-				d.Cos(a)
-			case "Tan":
-				d.Tan(a)
-			case "Sinh":
-				d.Sinh(a)
-			case "Cosh":
-				d.Cosh(a)
-			case "Tanh":
-				d.Tanh(a)
-			case "Logistic":
-				d.Logistic(a)
-			case "Sigmoid":
-				d.Sigmoid(a, rt.temp(n, cs.Pollute, 0.5))
-			case "Log1pExp":
-				d.Log1pExp(a)
-			case "Erf":
-				d.Erf(a)
-			case "Erfc":
-				d.Erfc(a)
-			case "LogErfc":
-				d.LogErfc(a)
-			case "Gamma":
-				d.Gamma(a)
-			case "Lgamma":
-				d.Lgamma(a)
-			case "Mlgamma":
-				d.Mlgamma(a, int(o.Par))
-			case "GammaP":
-				d.GammaP(o.Par, a)
-			case "BesselI":
-				d.BesselI(o.Par, a)
-			case "LogBesselI":
-				d.(logBesselIer).LogBesselI(o.Par, a)
-			default:
-				panic("run: unknown unary " + o.Name)
-			}
-		case Binary:
-			switch o.Name {
-			case "Add":
-				d.Add(a, b)
-			case "Sub":
-				d.Sub(a, b)
-			case "Mul":
-				d.Mul(a, b)
-			case "Div":
-				d.Div(a, b)
-			case "Pow":
-				d.Pow(a, b)
-			case "Min":
-				d.Min(a, b)
-			case "Max":
-				d.Max(a, b)
-			case "LogAdd":
-				d.LogAdd(a, b, rt.temp(n, cs.Pollute, 0.5))
-			case "LogSub":
-				d.LogSub(a, b, rt.temp(n, cs.Pollute, 0.5))
-			default:
-				panic("run: unknown binary " + o.Name)
-			}
+		case Unary, Binary:
+			rt.applyScalar(o, d, a, b, n, cs.Pollute)
 		case Reduce:
 			switch o.Name {
 			case "Vmean":
@@ -348,6 +376,90 @@ func (rt *libRT) run(p *Program, cs *Case, ext []ad.ConstScalar) (out runOut) {
 		out.regs = append(out.regs, dst)
 	}
 	return out
+}
+
+// applyScalar: d := o(a[, b]); scratch temporaries as temp(n, pollute, .).
+func (rt *libRT) applyScalar(o *OpDef, d ad.Scalar, a, b ad.ConstScalar, n, pollute int) {
+	switch o.Kind {
+	case Unary:
+		switch o.Name {
+		case "Neg":
+			d.Neg(a)
+		case "Abs":
+			d.Abs(a)
+		case "Exp":
+			d.Exp(a)
+		case "Log":
+			d.Log(a)
+		case "Sqrt":
+			d.Sqrt(a)
+		case "PowK":
+			d.Pow(a, ad.ConstFloat64(o.Par))
+		case "Log1p":
+			d.Log1p(a)
+		case "Sin":
+			d.Sin(a)
+		case "Cos":
+			d.Cos(a)
+		case "Tan":
+			d.Tan(a)
+		case "Sinh":
+			d.Sinh(a)
+		case "Cosh":
+			d.Cosh(a)
+		case "Tanh":
+			d.Tanh(a)
+		case "Logistic":
+			d.Logistic(a)
+		case "Sigmoid":
+			d.Sigmoid(a, rt.temp(n, pollute, 0.5))
+		case "Log1pExp":
+			d.Log1pExp(a)
+		case "Erf":
+			d.Erf(a)
+		case "Erfc":
+			d.Erfc(a)
+		case "LogErfc":
+			d.LogErfc(a)
+		case "Gamma":
+			d.Gamma(a)
+		case "Lgamma":
+			d.Lgamma(a)
+		case "Mlgamma":
+			d.Mlgamma(a, int(o.Par))
+		case "GammaP":
+			d.GammaP(o.Par, a)
+		case "BesselI":
+			d.BesselI(o.Par, a)
+		case "LogBesselI":
+			d.(logBesselIer).LogBesselI(o.Par, a)
+		default:
+			panic("run: unknown unary " + o.Name)
+		}
+	case Binary:
+		switch o.Name {
+		case "Add":
+			d.Add(a, b)
+		case "Sub":
+			d.Sub(a, b)
+		case "Mul":
+			d.Mul(a, b)
+		case "Div":
+			d.Div(a, b)
+		case "Pow":
+			d.Pow(a, b)
+		case "Min":
+			d.Min(a, b)
+		case "Max":
+			d.Max(a, b)
+		case "LogAdd":
+			d.LogAdd(a, b, rt.temp(n, pollute, 0.5))
+		case "LogSub":
+			d.LogSub(a, b, rt.temp(n, pollute, 0.5))
+		default:
+			panic("run: unknown binary " + o.Name)
+		}
+	}
 }
 
 // ---- comparison ------------------------------------------------------------------------------
@@ -391,6 +503,14 @@ func instrSig(p *Program, k int, jets []Jet, x []float64) (string, string) {
 	case Binary:
 		a, b := getJ(in.A), getJ(in.B)
 		return fmt.Sprintf("%v(%s,%s)", o, opClass(&a), opClass(&b)), region2(o, a.Val.V, b.Val.V, b.Deps != 0)
+	}
+	if o.Name == "LogSmoothMax" {
+		// an entry that depends on a variable and is exactly zero: the log-scale evaluation takes log 0
+		for _, q := range in.Vec {
+			if j := getJ(q); j.Deps != 0 && j.Val.V == 0 {
+				return o.String(), "variable-entry=0"
+			}
+		}
 	}
 	return o.String(), "-"
 }
@@ -503,9 +623,10 @@ func compareRegs(m *Model, p *Program, cs *Case, out *runOut, jets []Jet) (fails
 			fail(nanTag("value", got), fmt.Sprintf("value %v, reference %v (tolerance %.3g)", got, j.Val.V, tolK*j.Val.E))
 			return
 		}
-		if j.Status == stNonsmooth {
+		if j.Status == stNonsmooth || (j.Sing && cs.Pollute > 0) {
 			// kink or boundary of the domain: the derivatives are not unique, but the clauses that
-			// do not depend on a convention still hold (see checkNonsmooth)
+			// do not depend on a convention still hold (see checkNonsmooth). The same for a constant
+			// with a singular local derivative held in a reused object of order >= 1 (0 * Inf).
 			allFinite = false
 			st.checkedRegs++
 			if !illcond {
@@ -520,9 +641,12 @@ func compareRegs(m *Model, p *Program, cs *Case, out *runOut, jets []Jet) (fails
 				return
 			}
 			if k == nregs-1 {
-				if j.K != nil {
+				switch {
+				case j.K != nil:
 					st.status = "kink-bounds:" + j.Why
-				} else {
+				case j.Status != stNonsmooth:
+					st.status = "value+structure:constant-with-singular-derivative"
+				default:
 					st.status = "value+structure:" + j.Why
 				}
 			}
@@ -746,6 +870,9 @@ func matrixHelperChecks(rt *libRT, p *Program, cs *Case, stale int) (fails []fai
 			// only reached when the helpers agree on a fresh argument: keyed by the route, not by the operation
 			key = fmt.Sprintf("reactivation|%s(argument-with-stale-derivatives)|%s", what, cs.Type)
 			msg += fmt.Sprintf(" (argument carries derivatives of an earlier order-%d computation; with a fresh argument the helper agrees)", stale)
+			if cs.Hist != nil {
+				msg += fmt.Sprintf(" (earlier round from x=%v, every variable updated in place by %v)", cs.Hist.X0, cs.Hist)
+			}
 		}
 		fails = append(fails, failure{key, fmt.Sprintf("[%v] at x=%v: %s", p, cs.X, msg), len(p.Ins) - 1})
 	}
@@ -759,17 +886,22 @@ func matrixHelperChecks(rt *libRT, p *Program, cs *Case, stale int) (fails []fai
 	c1, c2 := *cs, *cs
 	c1.Order, c2.Order = 1, 2
 	c1.Pollute, c2.Pollute = 0, 0
-	c1.Stale, c2.Stale, c1.Act, c2.Act = 0, 0, "", ""
+	c1.Stale, c2.Stale, c1.Act, c2.Act, c1.Hist, c2.Hist = 0, 0, "", "", nil, nil
 	d1, d2 := rt.run(p, &c1, nil), rt.run(p, &c2, nil)
 	if d1.panicAt >= 0 || d2.panicAt >= 0 {
 		return
 	}
 	r1, r2 := d1.regs[len(d1.regs)-1], d2.regs[len(d2.regs)-1]
 	xs := make([]ad.MagicScalar, n)
+	if cs.Hist != nil && stale > 0 {
+		xs = rt.buildHist(cs.Hist)
+	}
 	for i := range xs {
-		if stale > 0 {
+		switch {
+		case cs.Hist != nil && stale > 0:
+		case stale > 0:
 			xs[i] = rt.used(cs.X[i], n, stale, 0.25+float64(i))
-		} else {
+		default:
 			xs[i] = rt.newMagic(cs.X[i])
 		}
 	}
@@ -781,7 +913,7 @@ func matrixHelperChecks(rt *libRT, p *Program, cs *Case, stale int) (fails []fai
 			ext[i] = v.ConstAt(i)
 		}
 		cc := *cs
-		cc.Pollute = 0
+		cc.Pollute, cc.Hist = 0, nil
 		o := rt.run(p, &cc, ext)
 		if o.panicAt >= 0 {
 			inner = o.panicMsg
